@@ -44,24 +44,20 @@ Utf8v11 == [ver |-> V11, enc |-> "UTF-8"]
 Utf16 == [ver |-> V10, enc |-> "UTF-16"]
 Real(kd(_, _, _), ctx, p, o) == kd(ctx, p, o) /\ ~Conforms(ctx, p, o)
 KDsAreRealDef ==
-  /\ Real(KD_loneSurrogateWritten, "text", <<97, 56320>>, Utf8)
-  /\ Real(KD_loneSurrogateWritten, "attr", <<56320>>, Latin1)
-  /\ Real(KD_loneSurrogateWritten, "text", <<55296, 97>>, Utf16)
-  /\ Real(KD_nonCharacterWritten, "text", <<65534>>, Utf8)
-  /\ Real(KD_rawLineEndInCdataSection, "cdata", <<97, CR, 97>>, Utf8)
-  /\ Real(KD_rawLineEndInCdataSection, "cdata", <<NEL>>, Utf8v11)
   /\ Real(KD_rawLineEndInCommentOrPI, "comment", <<97, CR>>, Utf8)
   /\ Real(KD_rawLineEndInCommentOrPI, "pi", <<LSEP>>, Utf8v11)
-  /\ Real(KD_charRefInCommentOrPI, "comment", <<8364>>, Latin1)
-  /\ Real(KD_charRefInCommentOrPI, "pi", <<97, 8364>>, Latin1)
-  /\ Real(KD_xml11TabRejected, "comment", <<TAB>>, Utf8v11)
-  /\ Real(KD_xml11TabRejected, "cdata", <<97, TAB>>, Latin1v11)
-  /\ Real(KD_xml11RestrictedInCdataElementRejected, "cdata", <<CR>>, Utf8v11)
   /\ Real(KD_xml11RestrictedInCdataElementRejected, "cdata", <<1>>, Utf8v11)
-  /\ Real(KD_cdataSectionLeftOpen, "cdata", <<97, 8364>>, Latin1)
-  /\ Real(KD_cdataEndAfterUnencodable, "cdata", <<8364, RSB, RSB, GT>>, Latin1)
-
+  /\ Real(KD_xml11RestrictedInCdataElementRejected, "cdata", <<97, 159>>, Latin1v11)
+(* repaired classes stay repaired: the inputs that used to break the obligation now meet it *)
+RepairedDef ==
+  /\ Conforms("text", <<97, 56320>>, Utf8) /\ Conforms("attr", <<56320>>, Latin1) /\ Conforms("text", <<55296, 97>>, Utf16)
+  /\ Conforms("text", <<65534>>, Utf8)
+  /\ Conforms("cdata", <<97, CR, 97>>, Utf8) /\ Conforms("cdata", <<NEL>>, Utf8v11) /\ Conforms("cdata", <<CR>>, Utf8v11)
+  /\ Conforms("comment", <<8364>>, Latin1) /\ Conforms("pi", <<97, 8364>>, Latin1)
+  /\ Conforms("comment", <<TAB>>, Utf8v11) /\ Conforms("cdata", <<97, TAB>>, Latin1v11)
+  /\ Conforms("cdata", <<97, 8364>>, Latin1) /\ Conforms("cdata", <<8364, RSB, RSB, GT>>, Latin1)
 ASSUME KDsAreReal == KDsAreRealDef
+ASSUME Repaired == RepairedDef
 
 (* ---- token sequences -------------------------------------------------------------------------------- *)
 Tokens == {Lit(c) : c \in Alphabet} \cup {Ref(c) : c \in Alphabet} \cup {CDO, CDC}
